@@ -23,6 +23,7 @@ class Gen:
 
     def __init__(self, rng: random.Random, full=True, depth=2, accs=None, launch_vals=True, prethread=False, carried=0.0):
         self.const_bounds = 0.3  # probability that a loop has constant bounds
+        self.between = 0.25  # probability of arithmetic between a launch and its await
         self.carried = carried  # probability that a loop carries a data value / an if yields a data value
         self.r = rng
         self.n = 0
@@ -62,6 +63,13 @@ class Gen:
                 out.append(f'{ind}{t} = "accfg.launch"(%lv, {s}) <{{param_names = ["launch"], accelerator = "{acc}"}}> : (i5, {st_ty(acc)}) -> !accfg.token<"{acc}">')
             else:
                 out.append(f'{ind}{t} = "accfg.launch"({s}) <{{param_names = [], accelerator = "{acc}"}}> : ({st_ty(acc)}) -> !accfg.token<"{acc}">')
+            if self.r.random() < self.between:
+                # computation placed between a launch and its await (inputs of later setups that are already "overlapped")
+                for _ in range(self.r.randint(1, 2)):
+                    v = self.fresh()
+                    a, b = self.r.choice(vals), self.r.choice(vals)
+                    out.append(f"{ind}{v} = arith.{self.r.choice(['addi', 'muli', 'subi'])} {a}, {b} : i32")
+                    vals += [v, v, v]
             out.append(f'{ind}"accfg.await"({t}) : (!accfg.token<"{acc}">) -> ()')
             t = self.fresh("t")
         return out
